@@ -86,7 +86,10 @@ class RowCollector:
                 data = getattr(self,name)
                 # a column declared with dtype=str starts as '<U1': the width has to follow the text that arrives
                 dtype = None if data.dtype.kind in 'US' else data.dtype
-                new.append(np.array(values[n],dtype=dtype))
+                cell = np.array(values[n],dtype=dtype)
+                if cell.ndim:  # np.append would flatten it and the columns would no longer be equally long
+                    raise Exception(f"Value of column '{name}' is not a single value:", values[n])
+                new.append(cell)
             for n, name in enumerate(self._columns):
                 setattr(self,name, np.append(getattr(self,name),new[n]) )
         else:
